@@ -26,5 +26,6 @@ class Check(SiteCheck):
                  'modelled and pinned by the translator. A hidden base named as plain text in a class '
                  'signature / classIndex external-base node / "overrides" note is not counted as an entry. Trusted: Coq kernel, '
                  'gen_listings.py, extraction, harness + crawler.'),
+        'tie': 'C1x_code_*_is_model: bodies of fullName/privacyClass/isVisible/isPrivate/page_object/url/taglink translated from the current source (Gen/SiteCode.v) and proved equal to the model',
         'technique': 'Coq proof (per-producer invariant over a regenerated listing skeleton) + crawl correspondence',
     }
